@@ -94,7 +94,7 @@ def run_shim(sc, src, dst, fl, at, log):
                 continue
             t = line.rstrip("\n").split("\t")
             if len(t) >= 3:
-                calls.append((t[1], t[2], t[3] if len(t) > 3 else "", t[4] if len(t) > 4 else "0"))
+                calls.append((t[1], t[2], t[3] if len(t) > 3 else "", t[4] if len(t) > 4 else "0", int(t[0])))
     return p.returncode, calls, killed, p.stdout.decode("utf-8", "replace"), p.stderr.decode("utf-8", "replace")
 
 
@@ -107,7 +107,7 @@ def owners_of(calls, dst, temp_of):
     """calls -> list of (owner_rel, name, is_temp); temp paths are attributed to their destination"""
     rev = {v: k for k, v in temp_of.items()}
     out = []
-    for name, p, q, _tid in calls:
+    for name, p, q, _tid, _k in calls:
         if not strace_fs.under(p, dst):
             out.append((None, name, False, p)); continue
         rel = os.path.relpath(p, dst)
@@ -218,7 +218,7 @@ def analyse(sc, r, variant, tier, stats, only_k=None):
         sev = [e for e in strace_fs.parse(slog) if any(strace_fs.under(p, base) for p in e["paths"])]
         skinds = sorted((e["kind"].replace("open-trunc", "open").replace("open-write", "open"), e["paths"][0] if e["kind"] != "rename" else e["paths"][0]) for e in sev)
         norm = {"open-trunc": "open", "open-write": "open", "rmdir": "unlink", "chmod": "chmod"}
-        ckinds = sorted((norm.get(n, n), p) for n, p, q, _t in ref_calls)
+        ckinds = sorted((norm.get(n, n), p) for n, p, q, _t, _k in ref_calls)
         stats["strace_calls"] = len(skinds); stats["shim_calls_same_world"] = len(ckinds)
         if skinds != ckinds:
             only_s = [x for x in skinds if x not in ckinds][:5]; only_c = [x for x in ckinds if x not in skinds][:5]
@@ -271,7 +271,11 @@ def analyse(sc, r, variant, tier, stats, only_k=None):
             if rc != 0:
                 viol.append(dict(ctag, why="run neither killed nor successful: rc=%s" % rc))
             continue
-        done = owners_of(calls[:-1], dst, temp_of)        # the last logged call is the one that was NOT executed
+        # the call numbered k was NOT executed; other threads may have logged (and perhaps executed) later numbers before the process was gone
+        killer_call = [cl for cl in calls if cl[4] == k]
+        executed = [cl for cl in calls if cl[4] != k]
+        late = [cl for cl in calls if cl[4] > k]
+        done = owners_of(executed, dst, temp_of)
         ndone = {}
         for o, n, t, p in done:
             if n != "mkdir":
@@ -284,17 +288,21 @@ def analyse(sc, r, variant, tier, stats, only_k=None):
         inprog = {o for o in ndone if 0 < ndone[o] < ntotal.get(o, 0)}
         # with several workers a call that another thread has logged may not have been executed when the process died:
         # the owner of each other thread's latest logged call counts as in progress, and its prefix is ki or ki-1
-        killer = calls[-1][3]
+        killer = killer_call[0][3] if killer_call else None
         last_of = {}
-        for idx, cl in enumerate(calls[:-1]):
+        for idx, cl in enumerate(executed):
             last_of[cl[3]] = idx
         inflight = {}
         for tid, idx in last_of.items():
-            if tid != killer:
+            if tid != killer or executed[idx][4] > k:
                 o = done[idx][0]
                 inflight[o] = inflight.get(o, 0) + 1
+        for idx, cl in enumerate(executed):
+            if cl[4] > k:
+                inflight[done[idx][0]] = inflight.get(done[idx][0], 0) + 1
         inprog |= set(inflight)
-        stats["boundaries"].add((calls[-1][0], "temp" if any(calls[-1][1].endswith(x) for x in (".sy.tmp",)) else "dest"))
+        if killer_call:
+            stats["boundaries"].add((killer_call[0][0], "temp" if killer_call[0][1].endswith(".sy.tmp") else "dest"))
         # O2/O3 statement-level checks on the crash state
         for rel in sorted(set(crash) | set(before) | set(ref_after)):
             c_e, b_e, f_e = crash.get(rel), before.get(rel), ref_after.get(rel)
@@ -352,7 +360,7 @@ def analyse(sc, r, variant, tier, stats, only_k=None):
             o_t = "a" if crash.get(temp_of[rel]) is None else "file"
             stats["state_comparisons"] += 1
             okk = None
-            for kk in [ki] + ([ki - 1] if inflight.get(rel) and ki > 0 else []):
+            for kk in [ki] + [ki - j for j in range(1, inflight.get(rel, 0) + 1) if ki - j >= 0]:
                 d_tok, t_tok, rp = pg["states"][kk].split(";")
                 p_d = pred_cls(d_tok, s_e["mtime_ns"])
                 p_t = "a" if t_tok == "a" else "file"
